@@ -3,7 +3,7 @@
 (* Trace validation for Reconnect.tla.  A trace is the ordered stream of   *)
 (* observable events of a run of the real ReconnectLogic on the real       *)
 (* APIClient in the simulated world:                                       *)
-(*   user rows   <<"start">> <<"stop">> <<"mdns", match>>                  *)
+(*   user rows   <<"start">> <<"stop">> <<"mdns", match>> <<"graceful">>   *)
 (*   event rows  <<"attempt">> <<"error_cb", auth>> <<"connect_cb">>       *)
 (*               <<"disconnect_cb", expected>> <<"zc_add">> <<"zc_remove">>*)
 (*               <<"stop_ret">>                                            *)
@@ -54,8 +54,9 @@ TStep ==
          \/ /\ e[1] = "start" /\ \E y \in UserStart(x) : Produces(y, l + 1, row.t) /\ r' = y /\ l' = l + 1 + Len(y.ev)
          \/ /\ e[1] = "stop"  /\ \E y \in UserStop(x)  : Produces(y, l + 1, row.t) /\ r' = y /\ l' = l + 1 + Len(y.ev)
          \/ /\ e[1] = "mdns"  /\ \E y \in Mdns(x, e[2]) : Produces(y, l + 1, row.t) /\ r' = y /\ l' = l + 1 + Len(y.ev)
+         \/ /\ e[1] = "graceful" /\ \E y \in Graceful(x) : r' = y /\ l' = l + 1
          \/ /\ e[1] = "idle"  /\ SnapOK(x, row.snap) /\ r' = Begin(x) /\ l' = l + 1
-         \/ /\ e[1] \notin {"start", "stop", "mdns", "idle"}
+         \/ /\ e[1] \notin {"start", "stop", "mdns", "idle", "graceful"}
             /\ \E y \in Eventful(x) : y.ev # <<>> /\ Produces(y, l, row.t) /\ r' = y /\ l' = l + Len(y.ev)
   /\ UNCHANGED tid
 
